@@ -104,7 +104,17 @@ def check_cagrad(ctx: Ctx, J, Jt, dtype, s2, fam, c):
     xs = tensor_to_fr(x)
     w = tensor_to_fr(A.weighting(Jt))
     l1 = sum(abs(v) for v in w)
-    allow = [Fr(1, 10 ** 4) * s2 * max(l1, Fr(1, m)) for _ in range(m)]      # conic solver's tolerance, scaled
+    # allowance of row i = (delta |j_i| s + 32 ulp s^2) |omega|_1 :
+    #  * the conic solver's tolerance, scaled PER ROW: an error delta (relative) in the returned weights moves A(J) = J^T omega
+    #    by at most s |omega|_1 delta, hence (J A(J))_i by at most |j_i| s |omega|_1 delta; delta = 2e-6 (CLARABEL: 1e-8);
+    #  * the working precision: the implementation sees the Gramian through a singular value decomposition computed in J's
+    #    dtype, i.e. with an ABSOLUTE error of a few ulp s^2 per entry — an objective whose row is below ulp s is invisible to
+    #    it (thorough tier, single precision: a row 2.6e-8 s long received cosine -0.36).
+    #  measured on the unchanged tree (evidence: cagrad_worst_negativity_over_allowance): <= 0.1 of the allowance
+    sflt = float(s2) ** 0.5 * (1 + 1e-9)
+    delta = Fr(2, 10 ** 6)
+    rown = [Fr(float(sum(v * v for v in r)) ** 0.5 * (1 + 1e-9)) for r in J]
+    allow = [(delta * rn * Fr(sflt) + 32 * Fr(ulp(dtype)) * s2) * max(l1, Fr(1, m)) for rn in rown]
     # kernel contract behind `cagrad_nonconflict_of_optimality`: the solver's answer w (recovered from the final
     # weights omega = e + lambda w, sum(w) = 1) satisfies the first-order condition (G omega)·w <= (G omega)_i
     lam = sum(w) - 1
@@ -119,10 +129,35 @@ def check_cagrad(ctx: Ctx, J, Jt, dtype, s2, fam, c):
         if lhs - min(gom) > Fr(1, 100) * gmax:
             ctx.count("cagrad_optimality_contract_violated")       # diagnostic: the conic solver is a kernel
     sl = slack(ctx, J, xs, allow)
+    for _i in range(m):
+        if allow[_i] > 0:
+            _k = "cagrad_worst_negativity_over_allowance:" + str(dtype)
+            ctx.cov[_k] = max(ctx.cov.get(_k, 0.0), float(-(sl[_i] - allow[_i]) / allow[_i]))
     if min(sl) < 0:
         i = sl.index(min(sl))
         ctx.violation(f"CAGrad(c={c}): (J·A(J))_{i} = {float(sl[i] - allow[i]):.6e} < -(solver allowance) = "
                       f"{-float(allow[i]):.3e}", {**rp, "x": [str(float(v)) for v in xs]})
+
+
+def faint_conflict(rng, dtype):
+    """one dominant objective and faint ones (6e-5 … 4e-4 of it) whose mutual conflict is decided along a direction that
+    the dominant row does not see: what the faint rows receive is invisible in |A(J)| and in the objective of every solver,
+    yet the property is per OBJECTIVE — the allowance of row i scales with |j_i|"""
+    m = rng.choice([3, 3, 4])
+    n = rng.choice([2, 3, 5])
+    g = torch.Generator().manual_seed(rng.randrange(2 ** 31))
+    Q, _ = torch.linalg.qr(torch.randn(n, n, generator=g, dtype=torch.float64))
+    d, e = Q[0], Q[1]
+    rows = [d * rng.choice([1.0, 3.0, 1000.0])]
+    scale = float(rows[0].norm())
+    for i in range(1, m):
+        # faint enough to hide behind the dominant row, not so faint that the combination falls below norm_eps (1e-4 s), where
+        # every aggregator of the family returns the zero vector
+        eps = 10.0 ** rng.uniform(-4.2, -3.4)
+        # (the faint rows agree with the dominant one and conflict with EACH OTHER across the unseen direction)
+        a, b = rng.uniform(1, 3), rng.uniform(3, 5) * (1 if i % 2 else -1)
+        rows.append(scale * eps * (a * d + b * e))
+    return torch.stack(rows).to(dtype)
 
 
 def one_matrix(ctx: Ctx, J, Jt, dtype, fam, cheap_only=False):
@@ -140,7 +175,8 @@ def one_matrix(ctx: Ctx, J, Jt, dtype, fam, cheap_only=False):
              [Fr(rng.randint(1, 9), 2 ** rng.choice([27, 33, 40])) for _ in range(m)]]     # tiny preferences: same cone, same guarantee
     if float(s2) >= (2 * norm_eps) ** 2:
         pref = rng.choice(prefs)
-        reg_eps = rng.choice([1e-4, 1e-4, 1e-2, 1e-6])
+        # (reg_eps below 1e-6 in double precision only: the QP solver needs reg_eps well above the rounding of the Gramian)
+        reg_eps = rng.choice([1e-4, 1e-4, 1e-2, 1e-6] + ([1e-8, 1e-10] if dtype == torch.float64 else []))
         check_qp_agg(ctx, "upgrad", UPGrad, J, Jt, dtype, s2, pref, reg_eps, norm_eps, fam)
         check_qp_agg(ctx, "dualproj", DualProj, J, Jt, dtype, s2, pref, reg_eps, norm_eps, fam)
         if not cheap_only and float(s2) < 1e30:
@@ -252,7 +288,10 @@ def main(ctx: Ctx):
         m, n = rng.choice([2, 2, 3, 4, 5]), rng.choice([1, 2, 3, 5, 8])
         dtype = torch.float64 if i % 2 else torch.float32
         r = rng.random()
-        if r < 0.6:
+        if i % 5 == 3:
+            Jt = faint_conflict(rng, dtype)
+            one_matrix(ctx, exact_of(Jt), Jt, dtype, "adv:faint-conflict")
+        elif r < 0.6:
             Jt, kind = m_adv(rng, m, n, dtype)
             if not torch.isfinite(Jt).all():
                 continue
